@@ -12,14 +12,38 @@ NEUTRAL = {"__builtin_expect", "mi_prim_get_default_heap", "__errno_location", "
 
 
 def family(prog):
+    """functions that take an element count and an element size: (a) named so in the public header, (b) hand two adjacent
+    size_t parameters to mi_count_size_overflow, or (c) forward two adjacent size_t parameters into the pair of a member"""
     fam = {}
     for f in prog.fns.values():
         if f.name in ("mi_mul_overflow", "mi_count_size_overflow"):
             continue
         ps = f.d["params"]
+        names = prog.param_names(f.name)
         for k in range(len(ps) - 1):
-            if ps[k]["t"] == "size_t" and ps[k + 1]["t"] == "size_t" and ps[k]["n"] in ("count", "newcount", "n") and ps[k + 1]["n"] == "size":
+            if ps[k]["t"] == "size_t" and ps[k + 1]["t"] == "size_t" and len(names) == len(ps) and names[k] in ("count", "newcount", "n") and names[k + 1] == "size":
                 fam[f.name] = k
+        for c in f.calls("mi_count_size_overflow"):
+            a = f.nodes[c]["args"]
+            d0, d1 = rl.var_of(f, a[0]), rl.var_of(f, a[1])
+            if d0 in f.pids and d1 in f.pids and f.pids.index(d1) == f.pids.index(d0) + 1:
+                fam.setdefault(f.name, f.pids.index(d0))
+    changed = True
+    while changed:
+        changed = False
+        for f in prog.fns.values():
+            if f.name in fam or f.name in ("mi_mul_overflow", "mi_count_size_overflow"):
+                continue
+            for c in f.calls():
+                cal = f.nodes[c].get("callee")
+                if cal in fam:
+                    a = f.nodes[c]["args"]
+                    kk = fam[cal]
+                    if kk + 1 < len(a):
+                        d0, d1 = rl.var_of(f, a[kk]), rl.var_of(f, a[kk + 1])
+                        if d0 in f.pids and d1 in f.pids and f.pids.index(d1) == f.pids.index(d0) + 1 and f.d["params"][f.pids.index(d0)]["t"] == "size_t":
+                            fam[f.name] = f.pids.index(d0)
+                            changed = True
     return fam
 
 
@@ -142,8 +166,7 @@ def r2(ctx, prog):
     def no_wrap(e, pol):
         if not isinstance(e, int):
             return False
-        c = rl.norm_cmp(h, e, pol)
-        return c is not None and rl.var_of(h, c[1]) == sz and c[0] == "<" and h.mentions(c[2], lambda m: m.get("cv") == prog.const("SIZE_MAX") or m.get("macro") == "SIZE_MAX")
+        return rl.establishes(h, e, pol, "<", rl.is_local(h, sz), lambda j: h.mentions(j, lambda m: m.get("cv") == prog.const("SIZE_MAX") or m.get("macro") == "SIZE_MAX"))
     for c in h.calls("_mi_align_up"):
         w = cfg.guarded(cfg.pt(c), no_wrap)
         ctx.check(R, w is None, h.where(c), "pvalloc rounds up only after `size < SIZE_MAX - psize`", key="C06.R2:pvalloc", witness=w)
